@@ -1,6 +1,7 @@
 //! C09: untrusted bytes at every input surface, under catch_unwind and the counting
 //! allocator.  The driver only runs and reports; Trace_Fuzz.tla judges.
 use crate::alloc;
+#[cfg(feature = "cli_private")]
 use crate::keyring::{EncodedPk, EncodedSk, Keyring};
 use crate::terms::{Env, Templates};
 use crate::util::*;
@@ -173,6 +174,7 @@ pub fn run_fuzz(b: &BaseBox, seed: u64, scn: &Value) -> Value {
             "noise_decrypt" => kestrel_crypto::noise_decrypt(&r_priv, &r_pub, &[0x65, 0x67, 0x6b, 0x10], &input).is_ok(),
             "aead_open" => kestrel_crypto::chapoly_decrypt_ietf(&b.chunk_key, &[0u8; 12], &input, b"ad").is_ok(),
             "file_format" => kestrel_crypto::decrypt::valid_file_format(&input).is_ok(),
+            #[cfg(feature = "cli_private")]
             "encoded_pk" => match std::str::from_utf8(&input) {
                 Ok(s) => match EncodedPk::try_from(s) {
                     Ok(e) => Keyring::decode_public_key(&e).is_ok(),
@@ -180,6 +182,7 @@ pub fn run_fuzz(b: &BaseBox, seed: u64, scn: &Value) -> Value {
                 },
                 Err(_) => false,
             },
+            #[cfg(feature = "cli_private")]
             "encoded_sk" => match std::str::from_utf8(&input) {
                 Ok(s) => match EncodedSk::try_from(s) {
                     Ok(e) => Keyring::unlock_private_key(&e, b"fuzz").is_ok(),
@@ -187,6 +190,7 @@ pub fn run_fuzz(b: &BaseBox, seed: u64, scn: &Value) -> Value {
                 },
                 Err(_) => false,
             },
+            #[cfg(feature = "cli_private")]
             "keyring" => match std::str::from_utf8(&input) {
                 Ok(s) => Keyring::new(s).is_ok(),
                 Err(_) => false,
